@@ -128,3 +128,17 @@ Example C13_script_instance :      (* two commands, the first over two lines wit
   /\ read_blocks 3 [83] false 0 (script_join (test_blocks [83] false 0 [[101; 10; 34; 39]; [102]])) = Some [[101; 10; 34; 39]; [102]].
 Proof. split; vm_compute; reflexivity. Qed.
 Print Assumptions C13_script_reads_back.
+
+(* "ANSI escape sequences are removed only when strip_ansi_escaping is set": the class of sequences in which the checks decide
+   the removal -- colour / style sequences ESC [ digits-and-semicolons m -- has an executable specification, [strip_sgr], that
+   removes exactly them: from any stream of ESC-free text pieces and well-formed sequences the text pieces remain, in order;
+   ESC-free text is left as it is.  The real stripping (crate strip-ansi-escapes) is compared with it on every payload of the
+   class, through both executors. *)
+From SV Require Import Ansi AnsiProofs.
+Theorem C13_strip_exactly_colour_sequences : forall toks, Forall (fun k => tok_ok k = true) toks ->
+  strip_sgr (flat_map render_tok toks) = flat_map text_of_tok toks.
+Proof. exact strip_tokens. Qed.
+Theorem C13_strip_leaves_plain_text : forall l, forallb (fun c => negb (c =? 27)%N) l = true -> strip_sgr l = l.
+Proof. exact strip_plain. Qed.
+Print Assumptions C13_strip_exactly_colour_sequences.
+Print Assumptions C13_strip_leaves_plain_text.
